@@ -493,6 +493,7 @@ type caseDef struct {
 	Backend string    `json:"backend"`                             // mem | mem-bytes | state
 	Mode    string    `json:"mode"`                                // single | multi
 	Helpers bool      `json:"via_registrystate_helpers,omitempty"` // state backend: requests go through registrystate.SetViaViewInTx/GetViaViewInTx (no spy)
+	Nested  bool      `json:"nested_group_stream,omitempty"`       // views carry nested groups, requests aim at their shared prefixes
 	Regs    []*regDef `json:"registries"`
 	Ops     []opDef   `json:"ops"`
 
@@ -502,6 +503,7 @@ type caseDef struct {
 
 type genStats struct {
 	viewsRejected int
+	noGroup       int
 }
 
 func buildRegistry(rd *regDef) (*registry.Registry, error) {
@@ -516,9 +518,16 @@ func buildRegistry(rd *regDef) (*registry.Registry, error) {
 	return registry.New(rd.Account, rd.Name, map[string]interface{}{rd.View.Name: rd.View.toMap()}, schema)
 }
 
+// nestedBase is the case_index of the first case of the nested-group stream.
+const nestedBase = 1000000
+
 func genCase(idx int, gs *genStats) *caseDef {
+	nested := idx >= nestedBase
 	r := kit.CaseRand("seq", idx)
-	cd := &caseDef{Idx: idx}
+	if nested {
+		r = kit.CaseRand("nest", idx-nestedBase)
+	}
+	cd := &caseDef{Idx: idx, Nested: nested}
 	switch x := r.Intn(20); {
 	case x < 7:
 		cd.Backend = "mem"
@@ -546,11 +555,22 @@ func genCase(idx int, gs *genStats) *caseDef {
 					rd.Account = "acc-b"
 				}
 			}
-			if r.Intn(4) > 0 {
-				rd.schema = genSchema(r)
-				rd.Schema = renderSchema(rd.schema)
+			if nested {
+				if r.Intn(2) == 0 {
+					rd.schema = genSchema(r)
+					rd.Schema = renderSchema(rd.schema)
+				}
+				if rd.View = genViewNested(r, rd.schema); rd.View == nil {
+					gs.noGroup++
+					continue
+				}
+			} else {
+				if r.Intn(4) > 0 {
+					rd.schema = genSchema(r)
+					rd.Schema = renderSchema(rd.schema)
+				}
+				rd.View = genView(r, rd.schema)
 			}
-			rd.View = genView(r, rd.schema)
 			reg, err := buildRegistry(rd)
 			if err != nil {
 				gs.viewsRejected++
@@ -569,6 +589,9 @@ func genCase(idx int, gs *genStats) *caseDef {
 		for j := 0; j < 3; j++ {
 			g.focus = append(g.focus, r.Intn(len(g.flat)))
 		}
+		if nested {
+			g.groups = findGroups(g.flat, g.keys)
+		}
 		gens[i] = g
 	}
 	nops := 14 + r.Intn(13)
@@ -586,6 +609,10 @@ func genCase(idx int, gs *genStats) *caseDef {
 				cd.Ops = append(cd.Ops, opDef{Kind: "renew", Slot: slot, Reg: reg})
 				continue
 			}
+		}
+		if len(gens[reg].groups) > 0 && r.Intn(100) < 45 {
+			cd.Ops = append(cd.Ops, genGroupOps(r, gens[reg], reg, slot)...)
+			continue
 		}
 		cd.Ops = append(cd.Ops, genOp(r, gens[reg], reg, slot))
 	}
@@ -612,6 +639,7 @@ type pendRAW struct {
 	paths     [][]string
 	widx      int // len(writes) right after the request
 	ridx      int // len(reqs) right after the request
+	nested    *nestedPlan
 }
 
 type txState struct {
@@ -647,6 +675,7 @@ type runner struct {
 	committedWrites int
 	rejected        int
 	multiMatch      int
+	nestedOverlap   int
 }
 
 func (rn *runner) fail(sig string, w map[string]interface{}) {
@@ -968,6 +997,17 @@ func (rn *runner) doWrite(op opDef, ts *txState) {
 		ts.pend = append(ts.pend, pendRAW{op: op, contain: contain, reordered: reordered, paths: paths, widx: len(ts.writes), ridx: len(ts.reqs)})
 	} else {
 		rn.stats.inc("read_after_write_not_applicable")
+		// several read-write rules with aliasing storage: model-based read-back
+		var base interface{}
+		if rn.cd.Mode == "single" {
+			base = docOf(before, rn.be.key(op.Reg))
+		}
+		if pl := rn.nestedPlan(op, base); pl != nil {
+			if !hadUnset {
+				rn.nestedReadBack(ts.h, op, pl, "in-transaction")
+			}
+			ts.pend = append(ts.pend, pendRAW{op: op, paths: pl.paths, widx: len(ts.writes), ridx: len(ts.reqs), nested: pl})
+		}
 	}
 }
 
@@ -1029,6 +1069,10 @@ func (rn *runner) doCommit(ts *txState) {
 			continue
 		}
 		fresh := rn.newTxState(ts.reg)
+		if p.nested != nil {
+			rn.nestedReadBack(fresh.h, p.op, p.nested, "after-commit")
+			continue
+		}
 		rn.readBack(fresh.h, p.op, p.contain, p.reordered, "after-commit")
 	}
 }
@@ -1179,7 +1223,11 @@ func runCase(cd *caseDef, stats *seqStats) (viols []viol, nontrivial bool) {
 			rn.doWrite(op, ts)
 		}
 	}
-	return rn.viols, rn.committedWrites > 0 && rn.rejected > 0 && rn.multiMatch > 0
+	nontrivial = rn.committedWrites > 0 && rn.rejected > 0 && rn.multiMatch > 0
+	if cd.Nested {
+		nontrivial = rn.committedWrites > 0 && rn.nestedOverlap > 0
+	}
+	return rn.viols, nontrivial
 }
 
 // ---------------------------------------------------------------------------
@@ -1199,7 +1247,15 @@ func TestVerifC30(t *testing.T) {
 	stats := &seqStats{counts: map[string]int{}}
 	gs := &genStats{}
 	nseq := kit.Scale(700, 2500)
+	nnest := kit.Scale(300, 1000)
+	var idxs []int
 	for idx := 0; idx < nseq; idx++ {
+		idxs = append(idxs, idx)
+	}
+	for j := 0; j < nnest; j++ {
+		idxs = append(idxs, nestedBase+j)
+	}
+	for _, idx := range idxs {
 		if only >= 0 && idx != only {
 			continue
 		}
@@ -1211,11 +1267,15 @@ func TestVerifC30(t *testing.T) {
 			c.Nontrivial(kit.Sig(kit.JSON(cd.Regs), kit.JSON(cd.Ops)))
 		}
 		stats.inc("cases_" + cd.Backend + "_" + cd.Mode)
+		if cd.Nested {
+			stats.inc("cases_nested_group_stream")
+		}
 		for _, v := range viols {
 			c.Violation(v.sig, v.w)
 		}
 	}
 	c.Count("views_refused_by_registry_new", gs.viewsRejected)
+	c.Count("nested_views_regenerated_no_group_possible", gs.noGroup)
 
 	if only < 0 {
 		runConcurrent(c, stats)
@@ -1244,5 +1304,11 @@ func TestVerifC30(t *testing.T) {
 		c.Floor("commits_on_base_changed_by_other_transaction", int64(nseq/20))
 		c.Floor("committed_writes_looked_up", int64(nseq))
 		c.Floor("rawbag_rejected", int64(nseq/2))
+		c.Floor("nested_sets_with_overlapping_storage", int64(nnest))
+		c.Floor("nested_sets_overlapping_with_inverted_request_order", int64(nnest/3))
+		c.Floor("nested_sets_overlapping_with_inner_rule_listed_first", int64(nnest/3))
+		c.Floor("nested_sets_overlapping_with_conflicting_values", int64(nnest/10))
+		c.Floor("nested_readbacks_in-transaction", int64(nnest))
+		c.Floor("nested_readbacks_after-commit", int64(nnest))
 	}
 }
